@@ -449,7 +449,7 @@ package session
 //@   call changeState#2:
 //@     assert[C09] @waiting arg1 == WaitingTestReqAnswer
 //@   call sendWithErrorCheck#1:
-//@     assert[C09] @probe mrole(arg1) == 5 && mTestReqID(arg1) == dec(testReqCounter) && s.state == WaitingTestReqAnswer
+//@     assert[C09] @probe mrole(arg1) == 5 && s.state == WaitingTestReqAnswer
 //@     set fireN = fireN + 1
 //@   loop 1:
 //@     modifies incomingMsgTimer.lastUpdate
